@@ -662,8 +662,15 @@ func coldStart(r *mon.Run) {
 }
 
 func main() {
-	if len(os.Args) > 1 && os.Args[1] == "-coldstart" {
-		os.Args = append(os.Args[:1], os.Args[2:]...)
+	cold := false
+	for i, a := range os.Args {
+		if a == "-coldstart" {
+			os.Args = append(os.Args[:i:i], os.Args[i+1:]...)
+			cold = true
+			break
+		}
+	}
+	if cold {
 		r := mon.Start("C18", "cold start: the first library operations of a fresh process issued concurrently under the race detector")
 		coldStart(r)
 		r.Finish()
